@@ -1391,6 +1391,46 @@ static void runRpfc(const Case &c) {
   delete d;
 }
 
+// DAC_BVLS as HASHUFFDAC builds it: every field and every sequence (access, access_next), before and after
+// save/load; re-validated by the Lean driver (`bvchk`): the fields must be the layout `DAC.build` derives
+// from the sequences and the model of `access` run on the exported fields must return them.
+#include "StringDictionaryHASHUFFDAC.h"
+static void runBvls(const Case &c) {
+  size_t len = 0;
+  uchar *buf = plain(c.strs, len, 1);
+  StringDictionaryHASHUFFDAC *d = new StringDictionaryHASHUFFDAC(new IteratorDictStringPlain(buf, len), len, (int)c.geti("ov", 25));
+  for (auto &op : c.ops) {
+    g_op++;
+    if (op[0] == "reload") {
+      std::stringstream ss(std::ios::in | std::ios::out | std::ios::binary);
+      d->save(ss);
+      StringDictionary *d2 = StringDictionaryHASHUFFDAC::load(ss);
+      delete d; d = (StringDictionaryHASHUFFDAC *)d2;
+      emit("RQ reloaded");
+    } else if (op[0] == "bv") {
+      DAC_BVLS *q = d->dac;
+      string idx, bits, rl, lv, acc, nxt;
+      for (uint j = 0; j <= q->nLevels; j++) idx += (j ? "," : "") + std::to_string(q->levelsIndex[j]);
+      for (uint j = 0; j < q->nLevels; j++) rl += (j ? "," : "") + std::to_string(q->rankLevels[j]);
+      for (uint k = 0; k < q->tamCode; k++) { bits += q->bS->access(k) ? '1' : '0'; lv += (k ? "," : "") + std::to_string((uint)q->levels[k]); }
+      size_t n = d->numElements();
+      for (uint pos = 1; pos <= n; pos++) {
+        uint *sq = nullptr;
+        uint l = q->access(pos, &sq);
+        if (pos > 1) acc += ";";
+        for (uint t = 0; t < l; t++) acc += (t ? "," : "") + std::to_string(sq[t]);
+        delete[] sq;
+        if (pos > 1) nxt += ";";
+        uint p = pos, lev = 0;
+        while (p != (uint)-1 && lev <= q->nLevels) { uint v = q->access_next(lev, &p); nxt += (lev ? "," : "") + std::to_string(v); lev++; }
+      }
+      emit("BV n=%u tam=%u idx=%s bits=%s rl=%s lv=%s acc=%s nxt=%s", q->nLevels, q->tamCode, idx.c_str(), bits.empty() ? "-" : bits.c_str(),
+           rl.empty() ? "-" : rl.c_str(), lv.empty() ? "-" : lv.c_str(), acc.empty() ? "-" : acc.c_str(), nxt.empty() ? "-" : nxt.c_str());
+    } else emit("ERR unknown-op");
+  }
+  delete d;
+}
+
 // ---------------------------------------------------------------------------
 static void runCase(const Case &c) {
   if (c.stream == "dict") runDict(c);
@@ -1407,6 +1447,7 @@ static void runCase(const Case &c) {
   else if (c.stream == "hhf") runHhf(c);
   else if (c.stream == "fm") runFm(c);
   else if (c.stream == "rpfc") runRpfc(c);
+  else if (c.stream == "bvls") runBvls(c);
   else emit("ERR unknown-stream %s", c.stream.c_str());
 }
 
